@@ -108,6 +108,17 @@ Theorem C12_graph_roundtrip : forall (F : Type) (parse_float : str -> option F) 
 Proof. intros F pf prf zero one H1 H2 H3. exact (graph_roundtrip F pf prf zero H1 H2 H3 one). Qed.
 Print Assumptions C12_graph_roundtrip.
 
+(* ... and a system: its network and its space (a grid or a graph, told apart by the `type` entry) as above, the state with
+   bit-identical values and an equivalent unit, the chemostat map and the units system unchanged, and the environment of every
+   cell still an environment of the network *)
+Theorem C12_system_roundtrip : forall (F : Type) (parse_float : str -> option F) (print_float : F -> str) (zero one : F),
+  (forall x, parse_float (print_float x) = Some x) -> (forall x, existsb is_space (print_float x) = false) ->
+  (forall x, print_float x <> nil) ->
+  forall parent (s : system_obj F), wf_system F s ->
+  exists s', read_system F parse_float zero one parent (write_system F print_float wr s) = Ok s' /\ system_equiv F s s'.
+Proof. intros F pf prf zero one H1 H2 H3. exact (system_roundtrip F pf prf zero H1 H2 H3 one). Qed.
+Print Assumptions C12_system_roundtrip.
+
 (* what the writers put into the dictionaries reads back: every quantity is written as str(UnitValue) (C18) ... *)
 Theorem C12_quantity_text : forall (F : Type) (parse_float : str -> option F) (print_float : F -> str) (zero : F),
   (forall x, parse_float (print_float x) = Some x) -> (forall x, existsb is_space (print_float x) = false) ->
